@@ -60,7 +60,7 @@ func c10Sign(c *core.Ctx) {
 		return true
 	})
 	if app == nil {
-		c.Ob("C10-R1", fd.Name()+"#append", fd.Decl.Pos(), false, "no append to <receiver>.Signatures found")
+		c.Ob("C10-R1", fd.Name()+"#append", fd.Decl.Pos(), false, "NOT FOUND: no append to <receiver>.Signatures in this function")
 		return
 	}
 	// (a) appended value is the result of a key Sign call whose error is nil here
@@ -292,7 +292,7 @@ func c10SignedFlag(c *core.Ctx) {
 					continue
 				}
 				for _, r := range fr.Rules {
-					if whenSigned(info, r, isIsSigned, true, "Empty") {
+					if whenSigned(info, fd.Decl.Body, r, isIsSigned, true, "Empty") {
 						okEmpty = true
 					}
 					ast.Inspect(r, func(n ast.Node) bool {
@@ -350,7 +350,7 @@ func c10SignedFlag(c *core.Ctx) {
 					continue
 				}
 				for _, rule := range fr.Rules {
-					if whenSigned(vfd.Pkg.TypesInfo, rule, isIsSigned, false, "Required") {
+					if whenSigned(vfd.Pkg.TypesInfo, vfd.Decl.Body, rule, isIsSigned, false, "Required") {
 						ok = true
 					}
 				}
@@ -369,7 +369,7 @@ func asFunc(o types.Object) *types.Func {
 }
 
 // whenSigned recognises validation.When(<[!]internal.IsSigned(ctx)>, ... validation.<name> ...).
-func whenSigned(info *types.Info, rule ast.Expr, isIsSigned func(*types.Func) bool, negated bool, name string) bool {
+func whenSigned(info *types.Info, body ast.Node, rule ast.Expr, isIsSigned func(*types.Func) bool, negated bool, name string) bool {
 	cl, ok := ast.Unparen(rule).(*ast.CallExpr)
 	if !ok || len(cl.Args) < 2 {
 		return false
@@ -389,8 +389,8 @@ func whenSigned(info *types.Info, rule ast.Expr, isIsSigned func(*types.Func) bo
 		}
 		if id, ok := cond.(*ast.Ident); ok {
 			if v, ok := info.Uses[id].(*types.Var); ok && !v.IsField() {
-				if d := singleLocalDef(info, v); d != nil {
-					cond = ast.Unparen(d)
+				if ds := core.NewLocalDefs(info, body).All(v); len(ds) == 1 && ds[0].RHS != nil && ds[0].N == 1 {
+					cond = ast.Unparen(ds[0].RHS)
 					continue
 				}
 			}
@@ -416,49 +416,3 @@ func whenSigned(info *types.Info, rule ast.Expr, isIsSigned func(*types.Func) bo
 	return found
 }
 
-// singleLocalDef returns the defining expression of a local variable that is
-// assigned exactly once in its function (found through the enclosing package
-// syntax), else nil.
-func singleLocalDef(info *types.Info, v *types.Var) ast.Expr {
-	if subject == nil || v.Pkg() == nil {
-		return nil
-	}
-	pk := subject.ByPath[v.Pkg().Path()]
-	if pk == nil {
-		return nil
-	}
-	var def ast.Expr
-	n := 0
-	for _, f := range pk.Syntax {
-		if !(f.Pos() <= v.Pos() && v.Pos() <= f.End()) {
-			continue
-		}
-		ast.Inspect(f, func(m ast.Node) bool {
-			switch x := m.(type) {
-			case *ast.AssignStmt:
-				for i, l := range x.Lhs {
-					if id, ok := l.(*ast.Ident); ok && (info.Defs[id] == types.Object(v) || info.Uses[id] == types.Object(v)) {
-						n++
-						if len(x.Lhs) == len(x.Rhs) {
-							def = x.Rhs[i]
-						}
-					}
-				}
-			case *ast.ValueSpec:
-				for i, nm := range x.Names {
-					if info.Defs[nm] == types.Object(v) {
-						n++
-						if len(x.Values) == len(x.Names) {
-							def = x.Values[i]
-						}
-					}
-				}
-			}
-			return true
-		})
-	}
-	if n != 1 {
-		return nil
-	}
-	return def
-}
